@@ -28,6 +28,6 @@ for d in sorted(glob.glob(os.path.join(HERE, "seeded", "*"))):
         "how": "tools/seed_verify.sh: scratch copy of /repo HEAD (git archive), demo run before and after `patch -p1 < patch.diff`, repository suite with the change, then ./check <ID> with VERIF_REPO pointing at the copy; copy removed afterwards",
     }
     json.dump(meta, open(meta_p, "w"), indent=1)
-    rows.append((os.path.basename(d), meta.get("summary", "")[:110].replace("\n", " "), ", ".join(c.replace(":exit1", "") for c in caught) or ("n/a (neutralised by a later fix)" if meta.get("obsolete_on_head") else "MISSED")))
+    rows.append((os.path.basename(d), meta.get("summary", "")[:110].replace("\n", " "), ", ".join(c.replace(":exit1", "") for c in caught) or ("n/a (neutralised by a later fix)" if meta.get("obsolete_on_head") else ("n/a (outside the statement)" if meta.get("out_of_scope") else "MISSED"))))
 for r in rows:
     print("| %s | %s | %s |" % r)
